@@ -303,6 +303,17 @@ func replayPV(p *tak.Position, pv []tak.Move) int {
 
 func decisive(v int64) bool { return v > ai.WinThreshold || v < -ai.WinThreshold }
 
+// generated: the move value is literally one of p.AllMoves (C04_pv.analyze_pv_head_generated_tak: the searching
+// players never return a hint that is merely Equal to a generated move, e.g. a placement with a stray Slides word)
+func generated(p *tak.Position, m tak.Move) bool {
+	for _, g := range p.AllMoves(nil) {
+		if g == m {
+			return true
+		}
+	}
+	return false
+}
+
 // c04Check runs one engine entry point and reports legality of what came back.
 func c04Check(e *engine, kind string, p *tak.Position) string {
 	before := dumpPos(p) + "|" + absDump(p)
@@ -324,6 +335,9 @@ func c04CheckInner(e *engine, kind string, p *tak.Position) string {
 		if _, err := p.Move(m); err != nil {
 			return "illegal " + encMove(m)
 		}
+		if !generated(p, m) {
+			return "ungenerated " + encMove(m)
+		}
 		return "legal pvok"
 	case "an":
 		pv, v, _ := e.ai.Analyze(ctx, p)
@@ -333,7 +347,11 @@ func c04CheckInner(e *engine, kind string, p *tak.Position) string {
 		if _, err := p.Move(pv[0]); err != nil {
 			return "illegal " + encMove(pv[0])
 		}
-		if !decisive(v) {
+		if !generated(p, pv[0]) {
+			return "ungenerated " + encMove(pv[0])
+		}
+		// C04_pv.pv_replays: the whole line replays whenever the value is inside the root window
+		if v >= ai.MinEval && v <= ai.MaxEval {
 			if i := replayPV(p, pv); i >= 0 {
 				return fmt.Sprintf("legal pvbad@%d %s v=%d", i, fmtPV(pv), v)
 			}
@@ -350,6 +368,9 @@ func c04CheckInner(e *engine, kind string, p *tak.Position) string {
 			}
 			if _, err := p.Move(pv[0]); err != nil {
 				return "illegal " + encMove(pv[0])
+			}
+			if !generated(p, pv[0]) {
+				return "ungenerated " + encMove(pv[0])
 			}
 			if !decisive(v) {
 				if i := replayPV(p, pv); i >= 0 {
